@@ -8,7 +8,7 @@
 //      multiset, the union over the rules enabled by default of lints(only r); switching one firing rule off
 //      removes exactly that rule's lints;
 //  (c) for pseudo-random subsets S = S1 + S2 of the rules: lints(S) == lints(S1) + lints(S2) == sum of lints(only r);
-//  (d) overlay: for all 256 user configurations assigning {absent, null, on, off} to three real rules and one
+//  (d) overlay: for all 256 + 8 user configurations (the 8: every curated key present but unset, as harper-wasm holds it) assigning {absent, null, on, off} to three real rules and one
 //      unknown name, after fill_with_curated every explicit choice wins, everything else takes the curated default,
 //      the unknown name changes no lint, and the configuration survives a JSON round trip; merge_from(a, b) for all
 //      pairs: b's explicit choices win, the rest is a's.
@@ -37,7 +37,8 @@ fn rac_rule_switches() {
     let default_on: Vec<String> = keys.iter().filter(|k| curated.is_rule_enabled(k)).cloned().collect();
     let mut cases = 0u64;
     let mut nontrivial = 0u64;
-    let extra = ["There is an apple, a pear and an orange on teh table, and and it cost 25$ on the 2st day.",
+    let extra = ["The movie was very good and the food was very good, really.",
+                 "There is an apple, a pear and an orange on teh table, and and it cost 25$ on the 2st day.",
                  "this sentence has  two spaces ,a bad comma,and an unclosed \"quote and is is wrong."];
     let sample: Vec<&str> = RAC_LINT_CORPUS.iter().step_by(5).take(150).cloned().chain(extra.iter().cloned()).collect();
     let mut rng: u64 = 0x2545F4914F6CDD1D;
@@ -130,7 +131,17 @@ fn rac_rule_switches() {
         }
         pool.push(c);
     }
-    let doc = Document::new_plain_english_curated(extra[0]);
+    // the shape harper.js / harper-wasm use: EVERY curated key present but unset, plus the user's few explicit choices
+    // and possibly an obsolete rule name - i.e. a user configuration with more entries than the curated one
+    for code in 0..8usize {
+        let mut c = curated.clone();
+        c.clear();
+        if code & 1 != 0 { c.inner.insert(names[3].clone(), Some(true)); }
+        c.inner.insert(names[0].clone(), Some(code & 2 != 0));
+        if code & 4 != 0 { c.inner.insert(names[1].clone(), Some(true)); }
+        pool.push(c);
+    }
+    let doc = Document::new_plain_english_curated(extra[1]);
     for user in &pool {
         cases += 1;
         let mut bad: Option<String> = None;
